@@ -73,7 +73,7 @@ def _strip_macro_stmts(text, counts):
     return ''.join(out)
 
 def _format_to_empty(text, counts):
-    """R2: `format!( .. )` -> `""`."""
+    """R2: `format!( .. )` -> `fmt_standin()` (a String about which nothing is known)."""
     m = rsparse.mask(text)
     out = []; i = 0
     pat = re.compile(r'(?<![A-Za-z0-9_])format!\s*\(')
@@ -82,7 +82,7 @@ def _format_to_empty(text, counts):
         if not mm:
             out.append(text[i:]); break
         cl = rsparse.match_close(m, mm.end() - 1)
-        out.append(text[i:mm.start()]); out.append('""')
+        out.append(text[i:mm.start()]); out.append('fmt_standin()')
         i = cl + 1
         counts['R2'] = counts.get('R2', 0) + 1
     return ''.join(out)
@@ -139,6 +139,9 @@ def transform_common(text, counts, is_async=False):
     text = _cut_derives(text, counts)
     text = _static_to_const(text, counts)
     text = _pub_crate(text, counts)
+    n = len(re.findall(r'\bString::from\(', text))
+    if n:
+        text = re.sub(r'\bString::from\(', 'string_from_str(', text); counts['R12b'] = counts.get('R12b', 0) + n
     return text
 
 # ------------------------------------------------------------------------------------------
@@ -359,6 +362,91 @@ class Assembler:
                 if it.kind in ('impl', 'fn'):
                     self.fn_ranges.append((first, len(self.out), repo_file + '::' + it.kind + ' ' + it.name, opts.get('safety', [])))
 
+    def helper_table(self, repo_file, container):
+        """functions of the file that are NOT under contract in this template: free functions, and methods of the
+        same impl blocks as `container` (and of the plain `impl Type` of a trait impl's type)"""
+        src, items = load(repo_file)
+        cov = self.covered.get(repo_file, set())
+        table = {}
+        for it in items:
+            if it.kind == 'fn' and it.name not in cov and '#[cfg(test)]' not in it.attrs:
+                table[it.name] = ('free', it)
+        conts = []
+        if container.strip() != '-':
+            last = container.split('/')[-1].strip()
+            if last.startswith('impl '):
+                ty = last[5:].split(' for ')[-1].strip()
+                conts = [it for it in items if it.kind == 'impl' and (it.name == ty or it.name.endswith(' for ' + ty))]
+            elif last.startswith('trait '):
+                conts = containers(items, container)
+        for c in conts:
+            for it in c.children():
+                if it.kind == 'fn' and it.name not in cov and '#[cfg(test)]' not in it.attrs:
+                    table[it.name] = ('method', it)
+        return table
+
+    def inline_helpers(self, repo_file, container, body, counts, qual, is_async):
+        """R13: a call to a function of the same file that has no contract in this template (a helper introduced after
+        the contracts were written) is inlined: `f(a, b)` -> `{ let p = a; let q = b; <body of f> }`.  Refused (anchor
+        error) if the helper's body contains `return` or `?`, is generic, or takes `self` by value."""
+        table = self.helper_table(repo_file, container)
+        if not table: return body
+        for depth in range(6):
+            m = rsparse.mask(body)
+            hit = None
+            for name, (kind, it) in table.items():
+                ty = container.split('/')[-1].strip()
+                ty = ty[5:].split(' for ')[-1].strip() if ty.startswith('impl ') else 'Self'
+                pat = (r'(?<![A-Za-z0-9_])(?:self\s*\.\s*|Self::|' + re.escape(ty) + r'::)' if kind == 'method' else r'(?<![A-Za-z0-9_.:])') + re.escape(name) + r'\s*\('
+                mm = re.search(pat, m)
+                if mm: hit = (name, kind, it, mm); break
+            if not hit: return body
+            name, kind, it, mm = hit
+            op = mm.end() - 1
+            cl = rsparse.match_close(m, op)
+            args_txt = body[op + 1:cl]
+            am = rsparse.mask(args_txt)
+            args = []; depth_b = 0; cur = 0
+            for k, ch in enumerate(am):
+                if ch in '([{<': depth_b += 1
+                elif ch in ')]}>': depth_b -= 1
+                elif ch == ',' and depth_b == 0:
+                    args.append(args_txt[cur:k].strip()); cur = k + 1
+            if args_txt[cur:].strip(): args.append(args_txt[cur:].strip())
+            sigm = rsparse.mask(it.sig)
+            if re.search(r'fn\s+' + re.escape(name) + r'\s*<', sigm):
+                raise AnchorError('R13: helper %s is generic, cannot inline into %s' % (name, qual))
+            po = sigm.index('(')
+            pc = rsparse.match_close(sigm, po)
+            ptxt = it.sig[po + 1:pc]
+            pm = rsparse.mask(ptxt)
+            params = []; depth_b = 0; cur = 0
+            for k, ch in enumerate(pm):
+                if ch in '([{<': depth_b += 1
+                elif ch in ')]}>': depth_b -= 1
+                elif ch == ',' and depth_b == 0:
+                    params.append(ptxt[cur:k].strip()); cur = k + 1
+            if ptxt[cur:].strip(): params.append(ptxt[cur:].strip())
+            pats = []
+            for prm in params:
+                if re.match(r'&\s*(\'[a-z_]+\s+)?(mut\s+)?self$', prm): continue
+                if prm in ('self', 'mut self'):
+                    raise AnchorError('R13: helper %s takes self by value' % name)
+                pats.append(prm.split(':', 1)[0].strip())
+            if len(pats) != len(args):
+                raise AnchorError('R13: arity mismatch inlining %s into %s' % (name, qual))
+            hb = transform_common(it.body, {}, is_async)
+            hm = rsparse.mask(hb)
+            if re.search(r'\breturn\b', hm) or '?' in hm:
+                raise AnchorError('R13: helper %s contains return/?: cannot inline into %s' % (name, qual))
+            lets = ''.join('let %s = %s; ' % (pt, a) for pt, a in zip(pats, args))
+            repl = '{ ' + lets + hb.strip()[1:-1].strip() + ' }'
+            body = body[:mm.start()] + repl + body[cl + 1:]
+            counts['R13'] = counts.get('R13', 0) + 1
+            self.containers_seen.setdefault((repo_file, container), set()).add(name)
+            self.inlined = getattr(self, 'inlined', set()) | {(repo_file, name)}
+        raise AnchorError('R13: helper inlining does not terminate in ' + qual)
+
     def do_fn(self, repo_file, container, name, opts, ann, tline):
         src, it = find_fn(repo_file, container, name)
         self.containers_seen.setdefault((repo_file, container), set()).add(name)
@@ -409,6 +497,8 @@ class Assembler:
             if call not in body:
                 raise AnchorError('inline anchor lost in %s: %s' % (qual, call))
             body = body.replace(call, inner); counts['R4b'] = counts.get('R4b', 0) + 1
+        if 'assumed' not in opts:
+            body = self.inline_helpers(repo_file, container, body, counts, qual, is_async)
         if 'ret' in opts:
             sig = add_ret_binder(sig, opts['ret'])
         if 'assumed' in opts:
@@ -537,6 +627,17 @@ class Assembler:
 
     def run(self, tpl_path):
         lines = open(tpl_path).read().split('\n')
+        # pre-pass: which functions of which file are under contract in this template (R13 needs to know)
+        self.covered = {}
+        for ln in lines:
+            st = ln.strip()
+            if st.startswith('//@fn'):
+                parts = [p.strip() for p in st[len('//@fn'):].split('|')]
+                self.covered.setdefault(parts[0], set()).add(parts[2])
+            if st.startswith('//@closed'):
+                parts = [p.strip() for p in st[len('//@closed'):].split('|')]
+                for p in parts[2:]:
+                    if p.startswith('allow='): self.covered.setdefault(parts[0], set()).update(x for x in p[6:].split(',') if x)
         i = 0
         while i < len(lines):
             ln = lines[i]
@@ -646,7 +747,8 @@ class Assembler:
         for (rf, cont, allow) in getattr(self, 'closed', []):
             have = set(sibling_fns(rf, cont))
             used = self.containers_seen.get((rf, cont), set())
-            extra = have - used - allow
+            inl = set(n for (f, n) in getattr(self, 'inlined', set()) if f == rf)
+            extra = have - used - allow - inl
             if extra:
                 raise AnchorError('functions in %s [%s] not under contract: %s' % (rf, cont, ', '.join(sorted(extra))))
 
